@@ -6,7 +6,7 @@ Local Open Scope string_scope.
 
 Definition proto_files : list string :=
   filter (fun f => negb (mem f ["connection.go"; "muxer/muxer.go"; "protocol/protocol.go"])) (files_of points).
-Definition sol := solicited points.
+Definition sol := solicited walkaways points.
 Definition sysof (f : string) : system := app (proto_system closers sol points f) (infra_system closers points).
 Definition lmn_server := "protocol/localmessagenotification/server.go".
 
